@@ -61,7 +61,8 @@ Record cinfo := CInfo {
   i_sel : bool;            (* selectable() *)
   i_hascur : bool;         (* hasattr(w, "get_cursor_coords") *)
   i_hasmove : bool;        (* hasattr(w, "move_cursor_to_coords") *)
-  i_rows : Z -> Z          (* rows((maxcol,)) *)
+  i_rows : Z -> Z;         (* rows((maxcol,)) *)
+  i_box : bool             (* Sizing.BOX in sizing() (asked by a Columns rendered as a box widget) *)
 }.
 
 (* a child as placed by render *)
@@ -95,7 +96,7 @@ Inductive mplan :=
 Definition crows (inf : cinfo) (s : size) : Z :=           (* rows of the child's canvas *)
   match snd s with Some r => r | None => i_rows inf (fst s) end.
 
-Definition dummy_info : cinfo := CInfo false false false (fun _ => 0).
+Definition dummy_info : cinfo := CInfo false false false (fun _ => 0) false.
 Definition nth_info (l : list cinfo) (i : Z) : cinfo :=
   match nthz l i with Some x => x | None => dummy_info end.
 
@@ -108,7 +109,7 @@ Fixpoint zmaxl (l : list Z) : Z := match l with [] => 0 | [x] => x | x :: r => Z
 Definition leaf_rows (l : leafd) (c : Z) : Z := if c <? lwrap l then lh l + 1 else lh l.
 Definition leaf_nrows (l : leafd) (s : size) : Z :=
   if lbox l then match snd s with Some r => r | None => 0 end else leaf_rows l (fst s).
-Definition leaf_info (l : leafd) : cinfo := CInfo (lsel l) (lapi l) (lapi l) (leaf_rows l).
+Definition leaf_info (l : leafd) : cinfo := CInfo (lsel l) (lapi l) (lapi l) (leaf_rows l) (lbox l).
 (* Spy._cursor *)
 Definition leaf_cursor (l : leafd) (s : size) : option xy :=
   match lcur l with
@@ -145,7 +146,7 @@ Definition attrmap_fits (s : size) : bool := true.
 (* ------------------------------------------------------------------------------------------ *)
 (* BoxAdapter (box_adapter.py): flow widget of [h] rows around a box widget                    *)
 (* ------------------------------------------------------------------------------------------ *)
-Definition boxadapter_info (h : Z) (ci : cinfo) : cinfo := CInfo (i_sel ci) true true (fun _ => h).
+Definition boxadapter_info (h : Z) (ci : cinfo) : cinfo := CInfo (i_sel ci) true true (fun _ => h) false.
 (* BoxAdapter.render: (maxcol,) = size *)
 Definition boxadapter_place (h : Z) (s : size) : list placed :=
   match snd s with None => [Placed 0 0 0 (fst s, Some h) true false] | Some _ => [] end.
@@ -177,7 +178,8 @@ Definition padding_values (o : padopts) (maxcol : Z) : Z * Z :=
 (* Padding.rows *)
 Definition padding_info (o : padopts) (ci : cinfo) : cinfo :=
   CInfo (i_sel ci) true true
-        (fun c => let '(l, r) := padding_values o c in i_rows ci (c - l - r)).
+        (fun c => let '(l, r) := padding_values o c in i_rows ci (c - l - r))
+        (i_box ci).                                    (* WidgetDecoration.sizing: the wrapped widget's *)
 (* Padding.render: child at (maxcol - left - right,) + size[1:], then pad_trim_left_right(left, right) *)
 Definition padding_place (o : padopts) (s : size) : list placed :=
   let '(l, r) := padding_values o (fst s) in
@@ -228,7 +230,7 @@ Definition filler_values (o : fillopts) (ci : cinfo) (s : size) : Z * Z :=
 Definition filler_csize (o : fillopts) (ci : cinfo) (s : size) : size :=
   let '(t, b) := filler_values o ci s in
   if is_pack (fi_ht o) then (fst s, None) else (fst s, Some (filler_maxrow o ci s - t - b)).
-Definition filler_info (o : fillopts) (ci : cinfo) : cinfo := CInfo (i_sel ci) true true (filler_rows o ci).
+Definition filler_info (o : fillopts) (ci : cinfo) : cinfo := CInfo (i_sel ci) true true (filler_rows o ci) true.
 (* Filler.render (no trimming: the child canvas is not taller than maxrow) *)
 Definition filler_place (o : fillopts) (ci : cinfo) (s : size) : list placed :=
   let '(t, b) := filler_values o ci s in
@@ -312,7 +314,9 @@ Definition pile_rows_sizes (items : list (popt * cinfo)) (s : size) : list (Z * 
          end) (combine items item_rows).
 Definition pile_info (items : list (popt * cinfo)) : cinfo :=
   CInfo (existsb (fun it => i_sel (snd it)) items) true true
-        (fun c => zsum (pile_item_rows items (c, None))).
+        (fun c => zsum (pile_item_rows items (c, None)))
+        (* Pile.sizing: BOX when some 'weight' or given item holds a box widget *)
+        (existsb (fun it => match fst it with PPack => false | _ => i_box (snd it) end) items).
 (* Pile.render: children with height > 0 stacked by CanvasCombine *)
 Fixpoint pile_place_from (rs : list (Z * size)) (i y fp : Z) : list placed :=
   match rs with
@@ -417,14 +421,18 @@ Definition column_widths (opts : list copt) (fp dc mw maxcol : Z) : list Z :=
   let '(ws2, sh2, wt2) := cw_phase2 ws1 0 dc sh1 wt1 in
   if sh2 =? 0 then ws2
   else cw_phase3 (wsort wt2) ws2 (sh2 + zlen wt2 * mw) (zsum (map fst wt2)) mw.
-(* Columns.get_column_sizes (every child supports the mode it is asked for):
+(* Columns.get_column_sizes (a child is asked to be a box widget when its sizing() has BOX or it is flagged):
    (width, height, size handed to the child) per column that has a width *)
 Definition col_items := list (copt * bool * cinfo).
 Definition columns_sizes (items : col_items) (fp dc mw : Z) (s : size) : list (Z * Z * size) :=
   let widths := column_widths (map (fun it => fst (fst it)) items) fp dc mw (fst s) in
   let zipped := combine widths items in
   match snd s with
-  | Some maxrow => map (fun p : Z * (copt * bool * cinfo) => (fst p, maxrow, (fst p, Some maxrow))) zipped
+  | Some maxrow =>
+      (* len(size) == 2 and BOX in w_sizing -> box; is_box -> box with max_height = size[1]; FLOW -> flow *)
+      map (fun p : Z * (copt * bool * cinfo) => let '(width, (_, isbox, ci)) := p in
+             if i_box ci || isbox then (width, maxrow, (width, Some maxrow))
+             else (width, (if 0 <? width then i_rows ci width else 0), (width, None))) zipped
   | None =>
       let flow_heights :=
         flat_map (fun p : Z * (copt * bool * cinfo) => let '(width, (_, isbox, ci)) := p in
@@ -437,7 +445,9 @@ Definition columns_sizes (items : col_items) (fp dc mw : Z) (s : size) : list (Z
 (* Columns.rows *)
 Definition columns_info (items : col_items) (fp dc mw : Z) : cinfo :=
   CInfo (existsb (fun it => i_sel (snd it)) items) true true
-        (fun c => Z.max 1 (zmaxl (map (fun t => snd (fst t)) (columns_sizes items fp dc mw (c, None))))).
+        (fun c => Z.max 1 (zmaxl (map (fun t => snd (fst t)) (columns_sizes items fp dc mw (c, None)))))
+        (* Columns.sizing: BOX only if ALL columns can be rendered as box widgets *)
+        (forallb (fun it => i_box (snd it)) items).
 (* Columns.render: columns with a width joined by CanvasJoin, each padded to width + dividechars but the last *)
 Fixpoint columns_place_from (cs : list (Z * Z * size)) (i x n fp dc : Z) : list placed :=
   match cs with
@@ -509,7 +519,8 @@ Definition columns_fits (items : col_items) (fp dc mw : Z) (s : size) : bool :=
   let cs := columns_sizes items fp dc mw s in
   let n := zlen items in
   negb (n =? 0) && (0 <=? fp) && (fp <? n) && (0 <=? dc) && (zlen cs =? n)
-  && forallb (fun t => (1 <=? fst (fst t)) && (1 <=? snd (fst t))) cs
+  && forallb (fun t => (1 <=? fst (fst t)) && (1 <=? snd (fst t))
+                       && match snd s with Some maxrow => snd (fst t) <=? maxrow | None => true end) cs
   && (zsum (map (fun t => fst (fst t)) cs) + dc * (n - 1) <=? fst s).
 
 (* ------------------------------------------------------------------------------------------ *)
@@ -542,7 +553,7 @@ Definition frame_top_bottom (hdr ftr : option cinfo) (fpt : fpart) (maxcol maxro
   end.
 Definition fpart_eqb (a b : fpart) : bool :=
   match a, b with FBody, FBody | FHeader, FHeader | FFooter, FFooter => true | _, _ => false end.
-Definition frame_info : cinfo := CInfo true true false (fun _ => 0).
+Definition frame_info : cinfo := CInfo true true false (fun _ => 0) true.
 (* Frame.render *)
 Definition frame_place (hdr ftr : option cinfo) (fpt : fpart) (s : size) : list placed :=
   match snd s with
@@ -619,7 +630,7 @@ Definition overlay_lrtb (o : ovopts) (ti : cinfo) (maxcol maxrow : Z) : Z * Z * 
 (* Overlay.top_w_size *)
 Definition overlay_top_size (o : ovopts) (maxcol maxrow l r t b : Z) : size :=
   if is_pack (fi_ht (ov_fill o)) then (maxcol - l - r, None) else (maxcol - l - r, Some (maxrow - t - b)).
-Definition overlay_info (ti : cinfo) : cinfo := CInfo (i_sel ti) true false (fun _ => 0).
+Definition overlay_info (ti : cinfo) : cinfo := CInfo (i_sel ti) true false (fun _ => 0) true.
 (* Overlay.render: bottom_w at the full size without focus, top_w overlaid at (left, top) *)
 Definition overlay_place (o : ovopts) (ti : cinfo) (s : size) : list placed :=
   match snd s with
